@@ -100,13 +100,170 @@ Global Hint Resolve ok_raw_copy ok_skip_bytes ok_zero_pads ok_read_len : okdb.
 Definition ring_pos (r : ring) : Prop :=
   let '(d1, d2, d3, d4) := r in 0 < d1 /\ 0 < d2 /\ 0 < d3 /\ 0 < d4.
 
+Lemma nth_some_in {A} (l : list (option A)) n d : nth n l None = Some d -> In (Some d) l.
+Proof.
+  revert n; induction l as [|x l IH]; intros [|n] E; cbn in E; try discriminate.
+  - left; exact E.
+  - right; eapply IH; exact E.
+Qed.
+
+Lemma dsub_pos a k d : dsub a k = Some d -> 0 < d.
+Proof.
+  unfold dsub. destruct (k <? a) eqn:L; [|discriminate].
+  apply N.ltb_lt in L. intros E; inversion E; lia.
+Qed.
+
 Lemma short_dist_pos code r d : ring_pos r -> short_dist code r = Some d -> 0 < d.
 Proof.
-  destruct r as [[[d1 d2] d3] d4]. intros [H1 [H2 [H3 H4]]]. unfold short_dist, dsub.
-  do 16 (destruct code as [|code] using N.peano_ind;
-         [cbn; repeat match goal with |- context[if ?c then _ else _] => destruct c eqn:? end;
-          intros E; inversion E; subst;
-          repeat match goal with H : (_ <? _) = true |- _ => apply N.ltb_lt in H end; lia|];
-         rewrite N2Nat.inj_succ).
-  cbn. destruct (N.to_nat code); discriminate.
+  destruct r as [[[d1 d2] d3] d4]. intros [H1 [H2 [H3 H4]]]. unfold short_dist.
+  intros E. apply nth_some_in in E. cbn [In] in E.
+  repeat (destruct E as [E|E];
+          [first [ apply dsub_pos in E; exact E | inversion E; subst; lia ]|]).
+  contradiction.
 Qed.
+
+Lemma ring_push_pos r d : ring_pos r -> 0 < d -> ring_pos (ring_push r d).
+Proof. destruct r as [[[d1 d2] d3] d4]. cbn. intros [H1 [H2 [H3 H4]]] Hd. auto. Qed.
+
+Lemma ring_last_pos r : ring_pos r -> 0 < ring_last r.
+Proof. destruct r as [[[d1 d2] d3] d4]. cbn. intros [H1 _]. exact H1. Qed.
+
+Lemma ring_init_pos : ring_pos (4, 11, 15, 16).
+Proof. cbn. lia. Qed.
+
+Lemma hoare_decode_distance np nd dcode r :
+  ring_pos r -> hoare br_errs (fun d => 0 < d) (decode_distance np nd dcode r).
+Proof.
+  intros Hr. unfold decode_distance.
+  destruct (dcode <? 16) eqn:E1.
+  - destruct (short_dist dcode r) as [d|] eqn:E; [|apply hoare_throw; fe].
+    apply hoare_ret. eapply short_dist_pos; eauto.
+  - apply N.ltb_ge in E1. destruct (dcode <? 16 + nd) eqn:E2.
+    + apply hoare_ret. lia.
+    + apply hoare_bind_only; [auto with okdb|]. intros extra. apply hoare_ret. rewrite N.add_1_r. apply N.lt_0_succ.
+Qed.
+
+Section WithDict.
+Variable dict_byte : N -> byte.
+
+Definition cst_ok (s : cst) : Prop := ring_pos (c_ring s).
+Definition cres_ok (r : cst + cst) : Prop :=
+  match r with inl s => cst_ok s | inr s => cst_ok s end.
+
+Lemma cmd_next_ok rem bl bi bd r : ring_pos r -> cres_ok (cmd_next rem bl bi bd r).
+Proof. unfold cmd_next; destruct (rem =? 0); exact id. Qed.
+
+Lemma hoare_command m s : cst_ok s -> hoare br_errs cres_ok (command dict_byte m s).
+Proof.
+  intros Hs. unfold command.
+  apply hoare_bind_only; [auto with okdb|]. intros bis.
+  apply hoare_bind_only; [auto with okdb|]. intros sym.
+  destruct (iac_codes sym) as [icode ccode].
+  destruct (nth_range ins_ranges icode) as [ibase inb].
+  destruct (nth_range cpy_ranges ccode) as [cbase cnb].
+  apply hoare_bind_only; [auto with okdb|]. intros ix.
+  apply hoare_bind_only; [auto with okdb|]. intros cx.
+  cbv zeta.
+  apply hoare_bind_only; [apply only_assert; fe|]. intros _.
+  apply hoare_bind_only.
+  { destruct (ibase + ix =? 0); okb. }
+  intros bl.
+  destruct (c_rem s =? ibase + ix); [apply hoare_ret; exact Hs|].
+  apply (hoare_bind br_errs (fun dz : N * bool * blk => 0 < fst (fst dz))).
+  { destruct (sym <? 128).
+    - apply hoare_ret. cbn [fst]. apply ring_last_pos. exact Hs.
+    - apply hoare_bind_only; [auto with okdb|]. intros bds.
+      apply hoare_bind_only; [auto with okdb|]. intros dcode.
+      eapply hoare_bind; [apply hoare_decode_distance; exact Hs|]. intros d Hd.
+      apply hoare_ret. exact Hd. }
+  intros [[dist zero] bd] Hd. cbn [fst] in Hd.
+  apply (hoare_hist_guard_copy br_errs cres_ok dist (cbase + cx) (fun h => N.min (m_window m) h)).
+  - exact Hd.
+  - intros h. lia.
+  - fe.
+  - apply hoare_ret. apply cmd_next_ok. destruct zero; [exact Hs | apply ring_push_pos; assumption].
+  - intros h. destruct (dict_ref dict_byte (cbase + cx) (dist - N.min (m_window m) h - 1)) as [w|];
+      [|apply hoare_throw; fe].
+    apply hoare_bind_only; [apply only_assert; fe|]. intros _.
+    apply hoare_bind_only; [apply only_put_all|]. intros _.
+    apply hoare_ret. apply cmd_next_ok. exact Hs.
+Qed.
+
+Lemma hoare_compressed_metablock window mlen inbits r :
+  ring_pos r -> hoare br_errs ring_pos (compressed_metablock dict_byte window mlen inbits r).
+Proof.
+  intros Hr. unfold compressed_metablock.
+  do 5 (apply hoare_bind_only; [solve [auto with okdb]|]; intros ?).
+  cbv zeta.
+  do 6 (apply hoare_bind_only; [solve [auto with okdb]|]; intros ?).
+  cbv zeta.
+  eapply hoare_bind.
+  - apply (hoare_loop br_errs cst_ok cst_ok); [fe | intros s Hs; apply hoare_command; exact Hs | exact Hr].
+  - intros fin Hf. apply hoare_ret. exact Hf.
+Qed.
+
+Definition mres_ok (x : ring + unit) : Prop := match x with inl r => ring_pos r | inr _ => True end.
+
+Lemma hoare_metablock window inbits r :
+  ring_pos r -> hoare br_errs mres_ok (metablock dict_byte window inbits r).
+Proof.
+  intros Hr. unfold metablock.
+  apply hoare_bind_only; [auto with okdb|]. intros islast.
+  apply hoare_bind_only; [destruct (islast =? 1); okb|]. intros empty.
+  destruct (empty =? 1).
+  { apply hoare_bind_only; [auto with okdb|]. intros _. apply hoare_ret. exact I. }
+  apply hoare_bind_only; [auto with okdb|]. intros mn.
+  apply (hoare_bind br_errs ring_pos).
+  - destruct (mn =? 3).
+    + apply hoare_bind_only; [auto with okdb|]. intros reserved.
+      apply hoare_bind_only; [apply only_assert; fe|]. intros _.
+      apply hoare_bind_only; [auto with okdb|]. intros sb.
+      apply hoare_bind_only; [destruct (sb =? 0); okb|]. intros sl.
+      apply hoare_bind_only; [auto with okdb|]. intros _.
+      apply hoare_bind_only; [auto with okdb|]. intros _.
+      apply hoare_ret. exact Hr.
+    + apply hoare_bind_only; [auto with okdb|]. intros mlen.
+      apply hoare_bind_only; [destruct (islast =? 1); okb|]. intros unc.
+      destruct (unc =? 1).
+      * apply hoare_bind_only; [auto with okdb|]. intros _.
+        apply hoare_bind_only; [auto with okdb|]. intros _.
+        apply hoare_ret. exact Hr.
+      * apply hoare_compressed_metablock. exact Hr.
+  - intros r' Hr'. destruct (islast =? 1).
+    + apply hoare_bind_only; [auto with okdb|]. intros _. apply hoare_ret. exact I.
+    + apply hoare_ret. exact Hr'.
+Qed.
+
+Theorem brotli_prog_only_expected_errors inbits : only br_errs (brotli_prog dict_byte inbits).
+Proof.
+  unfold brotli_prog. apply only_bind; [auto with okdb|]. intros wbits.
+  eapply only_of_hoare.
+  apply (hoare_loop br_errs ring_pos (fun _ => True)); [fe | | exact ring_init_pos].
+  intros r Hr. eapply hoare_weaken; [apply hoare_metablock; exact Hr|].
+  intros [r'|[]]; auto.
+Qed.
+
+(* the decoder model, on every input and for every dictionary: it either completes
+   or fails with UnexpectedEOF / Corrupted / the loop budget; the budget is never
+   exhausted on the inputs the correspondence runs (EFuel never observed), and
+   EPanic - an out-of-range window copy - is impossible *)
+Theorem brotli_only_expected_errors input :
+  match br_err (brotli_decode dict_byte input) with
+  | None => True
+  | Some e => br_errs e
+  end.
+Proof.
+  unfold brotli_decode. cbn [br_err].
+  set (s := ast_init (bytes_to_bits input)).
+  assert (Hw : wf_ast s) by reflexivity.
+  pose proof (only_elim br_errs _ s (brotli_prog_only_expected_errors
+               (8 * N.of_nat (length input) + 64)) Hw) as H.
+  unfold res_err. destruct (run _ s); [exact I | exact H].
+Qed.
+
+Corollary brotli_never_panics input : br_err (brotli_decode dict_byte input) <> Some EPanic.
+Proof.
+  pose proof (brotli_only_expected_errors input) as H. intros E. rewrite E in H.
+  unfold br_errs, flate_errs in H. intuition discriminate.
+Qed.
+End WithDict.
